@@ -138,7 +138,16 @@ func cmdVerify(args []string) {
 						vals := parseGetValue(o.Model)
 						for _, m := range e.modelTerms {
 							if v, ok := vals[normTerm(m.term)]; ok {
-								fmt.Printf("        %s = %s\n", m.name, v)
+								extra := ""
+								if strings.HasSuffix(m.name, "#1") && !strings.Contains(m.name, ".") {
+									var id int
+									if _, err := fmt.Sscanf(v, "%d", &id); err == nil {
+										if t := P.reg.tagType[id]; t != nil {
+											extra = "   (" + typeName(t) + ")"
+										}
+									}
+								}
+								fmt.Printf("        %s = %s%s\n", m.name, v, extra)
 							}
 						}
 					}
